@@ -217,6 +217,8 @@ def h_client_find_slots(ca, cb, ncr, n, co, lreq, bfull=False):
               'valid request refused: %s cores/rank, lfs %s, n=%s',
               ncr, lfs, n)
         return
+    except Exception as e:
+        check(False, 'NodeList.find_slots raised %s: %s', type(e).__name__, e)
     if slots is None:
         check(_client_snapshot([n0, n1]) == pre,
               'find_slots failed but left resources allocated')
